@@ -104,6 +104,8 @@ def decodeP : Ty → Prog Val
   | .bytes => (compactDec 4).bind fun len => .rawBytes len fun bs => .pure (.bytes bs)
   | .box sz t =>
       .descend fun _ => .alloc sz fun _ => (decodeP t).bind fun v => .ascend fun _ => .pure v
+  | .wrap t =>
+      .descend fun _ => (decodeP t).bind fun v => .ascend fun _ => .pure v
   | .duration =>
       .read 8 fun s => .read 4 fun n =>
         if fromLe n ≥ 1000000000 then .fail else .pure (.seq [.nat (fromLe s), .nat (fromLe n)])
